@@ -73,7 +73,8 @@ def histories(ctx):
     return hs, n_tlc
 
 
-STREAMS = {'c05': 60, 'c11': 80, 'c12': 40, 'c13': 60}          # driver module -> number of sampled recipes (quick)
+# driver module -> number of sampled recipes (quick); the other properties' drivers exercise most of the library
+STREAMS = {'c05': 60, 'c11': 80, 'c12': 40, 'c13': 60, 'c02': 60, 'c03': 40, 'c06': 60, 'c10': 40, 'c17': 40, 'c18': 60}
 
 
 def _stream_worker(job):
